@@ -11,14 +11,15 @@ Put(f, k, v) == [x \in (DOMAIN f) \cup {k} |-> IF x = k THEN v ELSE f[x]]
 MonInit == [viol |-> {}, allow |-> {},
             cur  |-> [sid |-> 0, dst |-> 0, tag |-> 0],
             hook |-> 0,           \* rewrite target announced by the hook for the current datagram (0 none)
-            dg   |-> <<>>,        \* tag -> dst
+            dg   |-> <<>>,        \* tag -> destinations named by the datagram's fragments (they need not agree; which
+                                  \* of them the packet goes to is the implementation's choice - it must pass the policy)
             rp   |-> <<>>,        \* reply tag -> [sock, src]
             sk   |-> <<>>]        \* sock -> [sid, to (0: not hooked), orig]
 
 MonStep(m, e, ln) ==
   CASE e.ev = "Reset" -> [MonInit EXCEPT !.viol = m.viol, !.allow = {e.allow[i] : i \in 1..Len(e.allow)}]
     [] e.ev = "Dgram" -> [m EXCEPT !.cur = [sid |-> e.sid, dst |-> e.dst, tag |-> e.tag], !.hook = 0,
-                                   !.dg = Put(m.dg, e.tag, e.dst)]
+                                   !.dg = Put(m.dg, e.tag, (IF e.tag \in DOMAIN m.dg THEN m.dg[e.tag] ELSE {}) \cup {e.dst})]
     [] e.ev = "Hook"  -> [m EXCEPT !.hook = IF e.to # e.dst THEN e.to ELSE 0]
     [] e.ev = "Dial"  -> IF e.ok THEN [m EXCEPT !.sk = Put(m.sk, e.sock, [sid |-> m.cur.sid, to |-> m.hook, orig |-> m.cur.dst])]
                          ELSE m
@@ -28,7 +29,7 @@ MonStep(m, e, ln) ==
          IN [m EXCEPT !.viol = VAll(m.viol, e, ln,
               \* the policy covers whatever destination the datagram really goes to - also a destination the hook chose
               << <<"Policy_DeniedDestination", known /\ e.dst \notin m.allow>>,
-                 <<"Policy_WrongDestination",  known /\ ~hk /\ e.dst # m.dg[e.tag]>>,
+                 <<"Policy_WrongDestination",  known /\ ~hk /\ e.dst \notin m.dg[e.tag]>>,
                  <<"Hook_NotRewritten",        hk /\ e.dst # m.sk[e.sock].to>> >>)]
     [] e.ev = "SockRead" -> IF e.ok THEN [m EXCEPT !.rp = Put(m.rp, e.tag, [sock |-> e.sock, src |-> e.src])] ELSE m
     [] e.ev = "Send" ->
